@@ -223,7 +223,7 @@ PROPS = {
                  "ever returned is re-checked after every later step. Non-trivial = >=3 distinct strings with a repeat after table growth and a "
                  "buffer overwrite in between (sequential) / a preemption at the intern-miss point (scheduled); distinct by history hash."),
         "jobs": [
-            {"run": "^TestC19(Sequential|Schedules)$", "shards": 16, "quick_shards": 4, "timeout_quick": 600, "timeout_thorough": 3000},
+            {"run": "^TestC19(Sequential|Schedules|LongHistory)$", "shards": 16, "quick_shards": 4, "timeout_quick": 600, "timeout_thorough": 3000},
             {"run": "^TestC19Race$", "shards": 4, "race": True, "timeout_quick": 600, "timeout_thorough": 3000},
         ],
     },
